@@ -1646,7 +1646,8 @@ class LuaMinifyTokenWriter(BaseLuaWriter):
                 self._last_was_newline = False
                 yield (
                     b'::' +
-                    self._name_factory.get_short_name(token.code[2:-2]) +
+                    self._name_factory.get_short_name(
+                        token.code[2:-2].strip()) +
                     b'::')
             elif token.matches(lexer.TokKeyword):
                 if self._last_was_name_keyword_number:
